@@ -1,5 +1,6 @@
 import DDV.Driver.Ops
 import DDV.Driver.Proto
+import DDV.Driver.Gen
 
 partial def loop (h : IO.FS.Stream) (out : IO.FS.Stream) (f : String → String) : IO Unit := do
   let line ← h.getLine
@@ -13,4 +14,5 @@ def main (args : List String) : IO UInt32 := do
   match args with
   | ["ops"] => loop stdin stdout DDV.Driver.Ops.step; return 0
   | ["proto"] => loop stdin stdout DDV.Driver.ProtoDrv.step; return 0
-  | _ => IO.eprintln "usage: ddv-driver <ops|proto>"; return 2
+  | ["gen"] => loop stdin stdout DDV.Driver.GenDrv.step; return 0
+  | _ => IO.eprintln "usage: ddv-driver <ops|proto|gen>"; return 2
